@@ -448,6 +448,11 @@ def fmt(ctx: Ctx) -> List[Ob]:
             ok_v = vm == f"{ov}['meta'].get('$value_map', {{}})"
             O(["C05", "C12"], ld, "the key map is read from the header and inverted", ok_k, "short keys must be mapped back to long keys")
             ok = ok_k and ok_v and len(fl) == 1 and not_after(ctx, ld, un[0], fl[0])
+            # the expansion runs for every dict entry: it does not depend on one of the two maps being non-empty
+            dep_ = [("" if p_ else "not ") + norm(a_) for a_, p_ in path_conds(ctx, ld, un[0])
+                    if not norm(a_).startswith("isinstance(") and any(isinstance(x, ast.Name) and ("map" in x.id) for x in ast.walk(a_))]
+            if dep_:
+                ok = False
         O(["C05", "C12"], ld, "entries are expanded with the inverted key map and the header's value map before nodes are built", ok,
           "compressed entries would reach the mapper unexpanded")
         ok = None
@@ -673,6 +678,21 @@ def fmt(ctx: Ctx) -> List[Ob]:
                 ok = False
     O(["C14"], td, "to_dict attaches the children to the dict the mapper returned", ok,
       "children stored on the dict that is handed to the mapper are lost when the mapper returns a new dict")
+    # the dict form carries the *string form* of the data object (objects are not JSON-able; from_dict gets strings back)
+    dvals = []
+    for x in ast.walk(td.node):
+        if isinstance(x, ast.Dict):
+            dvals += [v for k_, v in zip(x.keys, x.values) if k_ is not None and norm(k_) == "'data'"]
+        if isinstance(x, ast.Assign) and any(isinstance(t_, ast.Subscript) and norm(t_.slice) == "'data'" for t_ in x.targets):
+            dvals.append(x.value)
+    okd = None
+    if dvals:
+        texts = [norm(v) for v in dvals]
+        if all(t_ in ("str(self.data)", "str(self._data)", "f'{self.data}'", "f'{self._data}'") for t_ in texts):
+            okd = True
+        elif any(t_ in ("self.data", "self._data") for t_ in texts):
+            okd = False
+    O(["C14"], td, "to_dict stores the string form of the data object under 'data'", okd, "the live object would be emitted: the dict form is no longer plain data (json.dumps fails for object trees)")
     ids = find("$$r['data_id'] = self._data_id", td.node)
     ok = None
     if len(ids) == 1:
